@@ -238,7 +238,9 @@ func Exec(sc Scenario) *evid.Failure {
 		// the built-in default handler answers 4.04; it is observable through the writer only
 		if len(calls) == 0 && w.msg.Code() == codes.NotFound {
 			calls = append(calls, call{who: "<default>"})
-			order = append(order[:sc.Middlewares], append([]string{"handler"}, order[sc.Middlewares:]...)...)
+			// the built-in handler cannot log itself: it ran inside however many middlewares were entered
+			k := min(sc.Middlewares, len(order)/2)
+			order = append(order[:k:k], append([]string{"handler"}, order[k:]...)...)
 		}
 	}
 	if len(calls) != 1 {
